@@ -38,13 +38,9 @@ def iter_rows(cases, mout):
 # ---- narrow classifiers for the listed findings -------------------------------------------
 # a failure is attributed to a finding only when the program text contains the construct the
 # finding is about AND the symptom is the one that construct produces.
-PAT = {
-    # (func name [..] [r:T ..]) with at least one declared return and no body
-    "func-decl-returns": re.compile(r"\(func\s+\w+\s+\[[^\]]*\]\s+\[[^\]]*\w+:[^\]]*\]\s*\)"),
-    # (return) with no arguments; set/def whose target is %sym, (quote sym), (arrayidx ..) or (hashidx ..)
-    "valueless-form": re.compile(r"\(return\s*\)|\((set|def)\s+(%|\(quote|\(arrayidx|\(hashidx)"),
-}
-SYMPTOM_OF = {"func-decl-returns": "extra", "valueless-form": "missing"}
+# no finding of C04 is open on the current tree: nothing is attributed, every failure is a VIOLATION
+PAT = {}
+SYMPTOM_OF = {}
 
 
 def shape_len(state):
